@@ -149,10 +149,11 @@ RunNoSkip(st, d, k) ==       \* the earlier file is a valid one and was parsed w
        THEN RunNoSkip([st EXCEPT !.symbols = { e \in @ : e.name # BoundName(s) } \cup {[name |-> BoundName(s), node |-> ImportedObject(s)]},
                                  !.source = { e \in @ : e.name # BoundName(s) } \cup {[name |-> BoundName(s), stmt |-> s]},
                                  !.loaded = @ \cup LoadedBy(s.module), !.imports = Append(@, s)], d, k + 1)
-       ELSE LET c == Configurable(st, s.sel) IN
+       ELSE LET v == IF s.ref = <<>> THEN [st |-> st, obj |-> "none"] ELSE Configurable(st, s.ref)     \* the value is parsed first
+                c == Configurable(v.st, s.sel) IN
             RunNoSkip([c.st EXCEPT !.cfg = { b \in @ : ~(b.scope = s.scope /\ b.obj = c.obj /\ b.param = s.param) }
                                            \cup {[scope |-> s.scope, obj |-> c.obj, param |-> s.param, val |-> s.val,
-                                                  ref |-> "none", rscope |-> ""]}], d, k + 1)
+                                                  ref |-> v.obj, rscope |-> IF s.ref = <<>> THEN "" ELSE s.rscope]}], d, k + 1)
 PrevState == RunNoSkip(EmptyState, prev, 1)
 Result == Run(NewFile(PrevState), doc, 1)
 
